@@ -26,19 +26,25 @@ CBMC_BASE = ['--unwinding-assertions', '--undefined-shift-check', '--drop-unused
              '--pointer-primitive-check']
 
 class Unit:
+    """cuts: dict alias -> regex on the mangled name. Each cut function is kept out of line (noinline), its body is
+    omitted from the translation and the harness supplies a contract stub named by the alias (a #define in <unit>.h
+    maps the alias to the mangled name, so harnesses do not depend on the version-specific inline namespace)."""
     def __init__(s, name, src, defs=(), cuts=None, noinline=None):
-        s.name, s.src, s.defs, s.cuts, s.noinline = name, src, list(defs), cuts, noinline
+        s.name, s.src, s.defs, s.noinline = name, src, list(defs), noinline
+        s.cutmap = dict(cuts or {})
+        s.cuts = '|'.join('(?:%s)' % x for x in s.cutmap.values()) if s.cutmap else None
 
 class Ob:
     """one proof obligation = one CBMC query (+ its witness twin)"""
     def __init__(s, props, name, unit, harness, entry, defs=(), unwind=4, unwindset=(), backend='minisat',
                  tier='quick', cap=150, mem_gb=10, flags=(), witness=True, validate=8, desc='', bound='',
-                 ptr_overflow=True, objbits=None, kf=None):
+                 ptr_overflow=True, objbits=None, kf=None, hunwind=40, lunwind=()):
         s.props = [props] if isinstance(props, str) else list(props)
         s.name, s.unit, s.harness, s.entry = name, unit, harness, entry
         s.defs, s.unwind, s.unwindset, s.backend = list(defs), unwind, list(unwindset), backend
         s.tier, s.cap, s.mem_gb, s.flags, s.witness, s.validate = tier, cap, mem_gb, list(flags), witness, validate
         s.desc, s.bound, s.ptr_overflow, s.objbits, s.kf = desc, bound, ptr_overflow, objbits, kf
+        s.hunwind, s.lunwind = hunwind, list(lunwind)   # lunwind: [(regex on loop id, bound)] for library loops
 
 def sh(cmd, **kw):
     return subprocess.run(cmd, stdout=subprocess.PIPE, stderr=subprocess.STDOUT, text=True, **kw)
@@ -106,6 +112,14 @@ def build_unit(bdir, unit, log):
     hname = unit.name + '.h'
     header, body, info = irtyped.translate_typed(ll, dict(omit=unit.cuts, ubchecks=True, hname=hname))
     if unit.cuts and not info['omitted']: raise RuntimeError('cut functions vanished (inlined?) in unit %s' % unit.name)
+    alias = []
+    for al, rx in unit.cutmap.items():
+        hit = [f for f in info['omitted'] if re.search(rx, f)]
+        if len(hit) != 1: raise RuntimeError('cut %s (%s) matched %d functions in unit %s: %s' % (al, rx, len(hit), unit.name, hit[:4]))
+        alias.append('#define %s %s' % (al, hit[0]))
+    if alias:
+        k = header.rindex('#endif')
+        header = header[:k] + '\n'.join(alias) + '\n' + header[k:]
     open(b.p('.h'), 'w').write(header); open(b.p('.c'), 'w').write(body)
     b.info = info; b.ll_text = ll
     b.build_s = time.time() - t0
@@ -165,10 +179,26 @@ def run_native(exe, vin_file=None, seed=None, timeout=20):
 BACKENDS = {'minisat': [], 'cadical': ['--sat-solver', 'cadical'], 'kissat': ['--external-sat-solver', 'kissat'],
             'z3': ['--z3'], 'cvc5': ['--cvc5', '--slice-formula'], 'cvc5int': ['--cvc5', '--slice-formula']}
 
+def loop_bounds(b, ob):
+    """harness loops get ob.hunwind, library loops matching ob.lunwind their own bound, the rest ob.unwind"""
+    base = ['cbmc', b.p('.c'), os.path.join(ROOT, ob.harness), '-I', b.dir, '-I', ENG, '-I', os.path.join(ROOT, 'harness'),
+            '--function', ob.entry, '--drop-unused-functions', '--show-loops'] + ['-D' + d for d in ob.defs]
+    r = sh(base)
+    out = []
+    hbase = os.path.basename(ob.harness)
+    for m in re.finditer(r'^Loop (\S+):\n\s+file (\S+) line', r.stdout, re.M):
+        lid, f = m.group(1), m.group(2)
+        if os.path.basename(f) == hbase or f.endswith('vh.h'): out.append('%s:%d' % (lid, ob.hunwind + 1))
+        else:
+            for rx, n in ob.lunwind:
+                if re.search(rx, lid): out.append('%s:%d' % (lid, n)); break
+    return out
+
 def cbmc_cmd(b, ob, witness=False, backend=None):
     cmd = ['cbmc', b.p('.c'), os.path.join(ROOT, ob.harness), '-I', b.dir, '-I', ENG, '-I', os.path.join(ROOT, 'harness'),
            '--function', ob.entry, '--unwind', str(ob.unwind)]
-    for u in ob.unwindset: cmd += ['--unwindset', u]
+    if not hasattr(ob, '_lb'): ob._lb = loop_bounds(b, ob)
+    for u in list(ob.unwindset) + ob._lb: cmd += ['--unwindset', u]
     cmd += CBMC_BASE
     if ob.ptr_overflow: cmd += ['--pointer-overflow-check']
     if ob.objbits: cmd += ['--object-bits', str(ob.objbits)]
